@@ -270,6 +270,100 @@ class Ctx:
         self.count("COUNTEREXAMPLE:" + signature)
 
 
+class ImplCoverage:
+    """Line coverage of the implementation while the correspondence runs (sys.monitoring, Python >= 3.12):
+    which lines of the functions of the property's anchor files the harness actually executed.  Reported in the
+    evidence so that un-exercised code in the modelled functions is visible; it is not part of any verdict."""
+
+    TOOL = 3
+
+    def __init__(self, prop):
+        self.prop = prop
+        self.hit = {}
+        self.files = {}
+        try:
+            for ln in open(os.path.join(VERIF, "properties.jsonl")):
+                pr = json.loads(ln)
+                if pr["id"] == prop:
+                    import glob
+                    for pat in pr["anchors"]["files"]:
+                        for f in glob.glob(os.path.join(REPO, pat)):
+                            self.files[os.path.realpath(f)] = os.path.relpath(f, REPO)
+        except Exception:
+            pass
+        self.on = False
+
+    def __enter__(self):
+        mon = getattr(sys, "monitoring", None)
+        if mon is None or not self.files:
+            return self
+        try:
+            mon.use_tool_id(self.TOOL, "verif-cov")
+        except Exception:
+            return self
+        files = self.files
+        hit = self.hit
+
+        def on_line(code, line):
+            fn = code.co_filename
+            if fn in files:
+                hit.setdefault(fn, set()).add(line)
+            return mon.DISABLE
+        mon.register_callback(self.TOOL, mon.events.LINE, on_line)
+        mon.set_events(self.TOOL, mon.events.LINE)
+        self.on = True
+        return self
+
+    def __exit__(self, *a):
+        if self.on:
+            mon = sys.monitoring
+            mon.set_events(self.TOOL, 0)
+            mon.register_callback(self.TOOL, mon.events.LINE, None)
+            mon.free_tool_id(self.TOOL)
+            self.on = False
+
+    @staticmethod
+    def _function_lines(path):
+        """{function qualname: set(lines)} for every function / method body of the file (module level excluded)."""
+        out = {}
+        try:
+            top = compile(open(path).read(), path, "exec")
+        except Exception:
+            return out
+
+        def walk(co, prefix):
+            for c in co.co_consts:
+                if hasattr(c, "co_code"):
+                    name = (prefix + "." if prefix else "") + c.co_name
+                    is_fn = bool(c.co_flags & 0x2) and not c.co_name.startswith("<")  # CO_NEWLOCALS: def / lambda
+                    if is_fn:
+                        lines = {l for _, _, l in c.co_lines() if l is not None and l != c.co_firstlineno}
+                        if lines:
+                            out[name] = out.get(name, set()) | lines
+                    walk(c, name)
+        walk(top, "")
+        return out
+
+    def report(self):
+        rep = {}
+        for real, rel in sorted(self.files.items(), key=lambda x: x[1]):
+            fl = self._function_lines(real)
+            if not fl:
+                continue
+            hit = self.hit.get(real, set())
+            total = set().union(*fl.values())
+            per_fn = {}
+            for fn, lines in fl.items():
+                got = lines & hit
+                if got and got != lines:
+                    per_fn[fn] = sorted(lines - hit)
+            untouched = sorted(fn for fn, lines in fl.items() if not (lines & hit))
+            rep[rel] = dict(executable_lines_in_functions=len(total), executed=len(total & hit),
+                            partly_executed_functions_missing_lines=per_fn,
+                            functions_not_entered=untouched[:60])
+        return rep
+
+
 def load_known():
     p = os.path.join(VERIF, "known_findings.json")
     try:
@@ -315,6 +409,8 @@ def write_evidence(ctx, obligations, discharged, details, violations, extra=None
     }
     if ctx.exhaustive is not None:
         cov["exhaustive"] = bool(ctx.exhaustive)
+    if getattr(ctx, "impl_coverage", None):
+        cov["impl_line_coverage"] = ctx.impl_coverage
     if ctx.notes:
         cov["notes"] = ctx.notes
     if extra:
